@@ -15,12 +15,17 @@ EXTENDS Wire, SipHash
 E_Method == 10     \* InvalidInterfaceMethod
 
 SelSchema(I) == [k |-> "int", w |-> I.width, s |-> FALSE]
-SelOf(I, m) == IF "sel" \in DOMAIN m THEN m.sel ELSE Selector(m.name, InterfaceHash(I.name), I.width)
+SelOfName(I, m) == IF "sel" \in DOMAIN m THEN m.sel ELSE Selector(m.name, InterfaceHash(I.name), I.width)
+\* A *prepared* interface carries its hash and the selector of every method (computed once: SipHash is costly)
+Prepare(I) == [name |-> I.name, width |-> I.width, methods |-> I.methods, hash |-> InterfaceHash(I.name),
+               sels |-> [i \in 1..Len(I.methods) |-> SelOfName(I, I.methods[i])]]
+MethodIndex(I, m) == CHOOSE i \in 1..Len(I.methods) : I.methods[i] = m
+SelOf(I, m) == I.sels[MethodIndex(I, m)]
 Request(I, m, args) == Enc(SelSchema(I), SelOf(I, m)) \o Enc(m.args, args)
 
 \* index of the bound method with the given selector, 0 if none
-BoundIndex(I, sel) == IF \E i \in 1..Len(I.methods) : I.methods[i].bound /\ SelOf(I, I.methods[i]) = sel
-                      THEN CHOOSE i \in 1..Len(I.methods) : I.methods[i].bound /\ SelOf(I, I.methods[i]) = sel ELSE 0
+BoundIndex(I, sel) == IF \E i \in 1..Len(I.methods) : I.methods[i].bound /\ I.sels[i] = sel
+                      THEN CHOOSE i \in 1..Len(I.methods) : I.methods[i].bound /\ I.sels[i] = sel ELSE 0
 
 (* What the dispatcher must do with the request bytes `bs`:                  *)
 (*   [ok |-> FALSE, errs, used]            no handler runs, nothing is sent  *)
@@ -33,4 +38,39 @@ Dispatch(I, bs) ==
   ELSE LET d2 == Dec(I.methods[h].args, Src(bs), d1.pos, Inf) IN
   IF ~d2.ok THEN [ok |-> FALSE, errs |-> d2.errs, used |-> d2.at]
   ELSE [ok |-> TRUE, h |-> h, args |-> d2.v, used |-> d2.pos]
+
+\* ---- acceptance of one recorded call (used by TrRpc and, for in-thread traffic, by TrThreads) ----------------
+Has(r, f) == f \in DOMAIN r
+Tag(cond, tag) == IF cond THEN {} ELSE {tag}
+\* descriptor methods are keyed by the call name used in the command (several call names may share a method)
+InSeq(x, s) == \E j \in 1..Len(s) : s[j] = x
+MethodOf(I, name) == I.methods[CHOOSE i \in 1..Len(I.methods) : InSeq(name, I.methods[i].calls)]
+NameStr(I, h) == I.methods[h].label
+MapErr(errs) == {IF x = E_Src THEN 12 ELSE x : x \in errs}
+
+CallFails(I, c) ==
+  LET raw == c.m = "Raw"
+      tampered == raw \/ c.seen # c.req
+      D == Dispatch(I, c.seen) IN
+  (IF raw THEN {} ELSE Tag(c.req = Request(I, MethodOf(I, c.m), c.args), "request-framing"))
+  \cup
+  (IF ~D.ok
+   THEN Tag(c.dstatus \in MapErr(D.errs), "dispatch-status")
+        \cup Tag(c.hlog = <<>>, "handler-ran-on-error")
+        \cup Tag(c.rep = <<>>, "reply-sent-on-error")
+        \cup (IF raw THEN {} ELSE Tag(c.st_invoke # 0, "invoke-succeeded-without-reply"))
+   ELSE LET M == I.methods[D.h] IN
+        Tag(c.dstatus = 0, "dispatch-status")
+        \cup Tag(Len(c.hlog) = 1, "handler-count")
+        \cup (IF Len(c.hlog) = 1
+              THEN Tag(c.hlog[1].m = M.label, "wrong-handler")
+                   \cup Tag(c.hlog[1].args = D.args, "handler-arguments")
+                   \cup Tag(c.rep = Enc(M.ret, c.hlog[1].ret), "reply-is-handlers-return")
+                   \cup (IF tampered THEN {}
+                         ELSE Tag(c.hlog[1].args = c.args, "arguments-as-sent")
+                              \cup Tag(c.st_invoke = 0 /\ Has(c, "ret") /\ c.ret = c.hlog[1].ret, "invoke-result")
+                              \cup Tag(c.rep_left = 0, "reply-consumed"))
+              ELSE {})
+        \cup Tag(c.req_left = Len(c.seen) - D.used, "request-consumed"))
+
 =============================================================================
